@@ -1,5 +1,58 @@
 package graph
 
+import (
+	"errors"
+	"io"
+	"strconv"
+)
+
+// OddPanicHook lets the harness count the panics raised by user code.
+var OddPanicHook func()
+
+// Odd is a custom scalar whose input coercion can fail or panic (user code).
+type Odd struct{ V string }
+
+func (o *Odd) UnmarshalGQL(v any) error {
+	s, ok := v.(string)
+	if !ok {
+		return errors.New("Odd must be a string")
+	}
+	switch s {
+	case "bad":
+		return errors.New("bad odd")
+	case "boom":
+		if OddPanicHook != nil {
+			OddPanicHook()
+		}
+		panic("odd panic")
+	}
+	o.V = s
+	return nil
+}
+
+func (o Odd) MarshalGQL(w io.Writer) { io.WriteString(w, strconv.Quote(o.V)) }
+
+type Color string
+
+const (
+	ColorRed   Color = "RED"
+	ColorGreen Color = "GREEN"
+)
+
+func (e *Color) UnmarshalGQL(v any) error {
+	s, ok := v.(string)
+	if !ok {
+		return errors.New("enums must be strings")
+	}
+	if s != "RED" && s != "GREEN" {
+		return errors.New(s + " is not a valid Color")
+	}
+	*e = Color(s)
+	return nil
+}
+
+func (e Color) MarshalGQL(w io.Writer) { io.WriteString(w, strconv.Quote(string(e))) }
+
 // Hand-written models: only the plain fields; every other schema field gets a resolver method.
 
 type Node interface {
